@@ -425,11 +425,12 @@ alloc_done:
         case A_STRAY: {
             /* C20: duplicate or relocate object a with memcpy into the spare slot, then use the copy */
             cstl_array_t *st = &arr[NOBJ];
-            int fn = (int)(op->a[2] % 10), relocate = (int)(op->a[3] & 1), b = ma->buf;
+            int fn = (int)(op->a[2] % 13), relocate = (int)(op->a[3] & 1), b = ma->buf;
             static const void *pp; static void *rb;
             const char *state = b < 0 ? "empty" : mb[b].refs > 1 ? (ma->off || ma->len != mb[b].nm ? "shared-slice" : "shared") : (mb[b].external ? "external" : "owning");
             static char ctxbuf[48];
-            static const char *fnames[] = { "data", "at", "slice-src", "slice-dst", "unslice-src", "unslice-dst", "reset", "release", "alloc", "set" };
+            static const char *fnames[] = { "data", "at", "slice-src", "slice-dst", "unslice-src", "unslice-dst", "reset", "release", "alloc", "set",
+                                            "slice-inplace", "slice-inplace-inner", "unslice-inplace" };
             memcpy(st, &arr[a], sizeof *st);
             if (relocate) memset(&arr[a], 0x5A, sizeof arr[a]);
             else {
@@ -451,7 +452,12 @@ alloc_done:
             case 6: TRY(cstl_array_reset(st)); break;
             case 7: TRY(cstl_array_release(st, &rb)); break;
             case 8: TRY(cstl_array_alloc(st, 3, 4)); break;
-            default: { static char extbuf[64]; TRY(cstl_array_set(st, extbuf, 4, 4)); break; }
+            case 9: { static char extbuf[64]; TRY(cstl_array_set(st, extbuf, 4, 4)); break; }
+            /* the documented in-place forms, with the stray as both arguments */
+            case 10: TRY(cstl_array_slice(st, 0, 0, st)); break;
+            case 11: if (ma->len < 1) { stray_call = 0; EVT("skip", 0, 0, 0); goto stray_done; }
+                     TRY(cstl_array_slice(st, 0, 1 + (size_t)(op->a[4] % ma->len), st)); break;     /* a non-empty range inside the current view */
+            default: TRY(cstl_array_unslice(st, st)); break;
             }
             PROBE("c20_stray_call");
             { char pn[96]; snprintf(pn, sizeof pn, "c20:%s", g_cur_ctx); probe_dyn(pn); }
@@ -520,7 +526,7 @@ static void a_gen(prng_t *r, int mode, plan_t *p)
     }
     if (mode == 20) {
         op_t *o = plan_add(p, A_STRAY);
-        o->a[0] = prng_below(r, 4); o->a[1] = prng_below(r, 4); o->a[2] = prng_below(r, 10); o->a[3] = prng_below(r, 2);
+        o->a[0] = prng_below(r, 4); o->a[1] = prng_below(r, 4); o->a[2] = prng_below(r, 13); o->a[3] = prng_below(r, 2); o->a[4] = prng_next(r) >> 8;
     }
 }
 
